@@ -3,6 +3,9 @@
 package verifsys
 
 import (
+	"net/http"
+	"io"
+	"encoding/base64"
 	"encoding/json"
 	"fmt"
 	"math/rand"
@@ -405,6 +408,133 @@ func TestVerifC05(t *testing.T) {
 	}
 	c05HungQueryLog(rep)
 	c05SlowUpstream(rep)
+	c05SlowReverseDNS(rep)
+}
+
+// c05SlowReverseDNS: the server learns about its clients in the background
+// (reverse DNS through the private PTR resolver, which is slow here).  Hundreds
+// of requests from clients it has not seen yet arrive meanwhile (DNS-over-HTTPS
+// through a trusted proxy, so that the clients have private, non-loopback
+// addresses), and an admin operation reconfigures the server.  Serving must go
+// on during the slow lookup and afterwards.
+func c05SlowReverseDNS(rep *verifkit.Report) {
+	rng := rep.Rand("slow-rdns")
+	up, err := sysStartUpstream(rng.Int63())
+	if err != nil {
+		rep.Inconcl("mock upstream: " + err.Error())
+
+		return
+	}
+	defer up.Stop()
+	const hold = 7 * time.Second
+	up.SetPTRDelay(hold)
+	in, err := sysStart("", sysConfOpts{UpstreamPort: up.Port, QLogMemSize: 50, PrivatePTR: true,
+		TLS: "  enabled: false\n  allow_unencrypted_doh: true\n"})
+	if err != nil {
+		rep.Inconcl("slow-reverse-DNS phase start: " + err.Error())
+
+		return
+	}
+	defer func() {
+		in.Kill()
+		_ = os.RemoveAll(in.Dir)
+	}()
+	tr := &http.Transport{MaxIdleConnsPerHost: 32}
+	defer tr.CloseIdleConnections()
+	hc := &http.Client{Transport: tr, Timeout: 4 * time.Second}
+	doh := func(i int) bool {
+		m := &dns.Msg{}
+		m.SetQuestion(fmt.Sprintf("rdns%d.slowrdns.verif.test.", i), dns.TypeA)
+		m.Id = 0
+		wire, _ := m.Pack()
+		req, _ := http.NewRequest("GET", fmt.Sprintf("http://127.0.0.1:%d/dns-query?dns=%s", in.WebPort, base64.RawURLEncoding.EncodeToString(wire)), nil)
+		req.Header.Set("X-Forwarded-For", fmt.Sprintf("10.9.%d.%d", 1+i/250, 1+i%250))
+		resp, gerr := hc.Do(req)
+		if gerr != nil {
+			return false
+		}
+		_, _ = io.Copy(io.Discard, resp.Body)
+		_ = resp.Body.Close()
+
+		return resp.StatusCode == 200
+	}
+	total := verifkit.Pick(600, 2000)
+	var next, okN atomic.Int64
+	var wg sync.WaitGroup
+	t0 := time.Now()
+	for g := 0; g < 16; g++ {
+		wg.Add(1)
+		go func() {
+			defer wg.Done()
+			for {
+				i := int(next.Add(1))
+				if i > total || time.Since(t0) > hold+20*time.Second {
+					return
+				}
+				if doh(i) {
+					okN.Add(1)
+				}
+			}
+		}()
+	}
+	time.Sleep(800 * time.Millisecond)
+	opDone := make(chan struct{})
+	go func() {
+		_, _, _ = in.API("POST", "/control/protection", map[string]any{"enabled": true})
+		close(opDone)
+	}()
+	time.Sleep(200 * time.Millisecond)
+	probe := func(tag string, n int, each time.Duration) (ok int) {
+		var pw sync.WaitGroup
+		var okA atomic.Int64
+		for p := 0; p < n; p++ {
+			pw.Add(1)
+			go func(p int) {
+				defer pw.Done()
+				if resp, qerr := sysQuery(in, "127.0.0.1", p%2 == 0, fmt.Sprintf("%s%d.slowrdns.verif.test.", tag, p), dns.TypeA, each); qerr == nil && resp != nil {
+					okA.Add(1)
+				}
+			}(p)
+			time.Sleep(50 * time.Millisecond)
+		}
+		pw.Wait()
+
+		return int(okA.Load())
+	}
+	during := probe("during", 12, 2500*time.Millisecond)
+	duringEnd := time.Since(t0)
+	wg.Wait()
+	select {
+	case <-opDone:
+	case <-time.After(hold + 15*time.Second):
+	}
+	after := probe("after", 10, 5*time.Second)
+	rep.Eval(true, "slow-reverse-dns")
+	rep.Class("admin_op_while_client_lookups_are_slow")
+	rep.EventN("requests_of_unseen_clients_during_a_slow_client_lookup", total)
+	rep.EventN("requests_of_unseen_clients_during_a_slow_client_lookup_served", int(okN.Load()))
+	rep.EventN("ptr_questions_seen_by_the_upstream", int(up.PTRAsked.Load()))
+	if up.PTRAsked.Load() == 0 {
+		rep.Inconcl("slow-reverse-DNS phase: the server never asked a PTR question")
+
+		return
+	}
+	if (during < 3 && duringEnd < hold) || after < 3 {
+		dump := ""
+		if after == 0 {
+			dump = in.Dump()
+		}
+		summary, lockers := sysSummarizeDump(dump)
+		rep.Violate("stall:admin-operation-while-client-lookups-are-slow",
+			fmt.Sprintf("while the background lookup of a client's name was pending (PTR answers take %s), %d requests of clients not seen before arrived and POST /control/protection was issued: %d/12 probes were served meanwhile, %d/10 after everything had ended; %d of the %d requests were served", hold, total, during, after, okN.Load(), total),
+			map[string]any{"goroutines_by_state_and_product_frames": summary, "stacks_blocked_on_mutexes": lockers})
+
+		return
+	}
+	log := in.Log()
+	if loc := c05PanicRe.FindStringIndex(log); loc != nil {
+		rep.Violate("server-crash:slow-reverse-dns", "the server process panicked or died with a fatal error", map[string]any{"log": log[loc[0]:min(loc[0]+6000, len(log))]})
+	}
 }
 
 // c05SlowUpstream: the upstream exchange of one client's request is pending for
@@ -748,12 +878,19 @@ func c05Background(rep *verifkit.Report, k int) {
 		// Engine-rebuilding admin operations during the download, without
 		// waiting for one another.
 		var ow sync.WaitGroup
-		for o := 0; o < 4; o++ {
+		for o := 0; o < 6; o++ {
 			ow.Add(1)
 			go func(o int) {
 				defer ow.Done()
-				switch o % 2 {
-				case 0:
+				switch {
+				case o >= 4:
+					// A list added while the background download is under way:
+					// two downloads are parsed and stored at the same time.
+					path := fmt.Sprintf("/bgnew%d-%d.txt", k, o)
+					ls.SetSlow(path, body(100+k*10+o, 2000), 10, 25*time.Millisecond)
+					_, _, _ = in.APITimeout("POST", "/control/filtering/add_url", map[string]any{"name": fmt.Sprintf("bgnew%d-%d", k, o), "url": ls.URL(path), "whitelist": o == 5}, 20*time.Second)
+					rep.Class("lists_added_during_background_refresh")
+				case o%2 == 0:
 					_, _, _ = in.APITimeout("POST", "/control/filtering/set_rules", map[string]any{"rules": []string{fmt.Sprintf("||bgrule%d-%d.verif.test^", k, o)}}, 20*time.Second)
 				default:
 					_, _, _ = in.APITimeout("POST", "/control/filtering/set_url", map[string]any{"url": ls.URL("/bg0.txt"), "whitelist": false,
